@@ -3,7 +3,7 @@
      pool      {pool}: certificate pool (id = position), once
      reset     {tl, keys, chains}: one scenario: TRC time line, key ring, chains in the store (now = 0)
      generate  {n, errnil}: SignerGen.Generate returned n signers
-     signer    {key, chain, ingrace, exp, trcserial, signok, verifyok, verifyother, subjectok}: one of them:
+     signer    {key, chain, ingrace, exp, trcserial, signok, verifyok, verifyother, subjectok, vlate}: one of them:
                which ring key it uses, its chain, InGrace, Expiration (abstract time), and what happened when
                it signed a message and verifiers bound to its ISD-AS / to another ISD-AS checked it
      direct    {exp, signok}: a signer value with the given Expiration asked to sign
@@ -35,6 +35,10 @@ Signer ==
     /\ R.subjectok = 0 => Bad("signer:other-isd-as")
     /\ (R.signok = 1 /\ R.exp < 0) => Bad("signer:signs-after-expiry")
     /\ (R.signok = 1 /\ R.verifyok = 0) => Bad("signer:signed-message-does-not-verify" \o (IF R.ingrace THEN "-in-grace" ELSE ""))
+    \* vlate: a verifier with its cache first saw a message of this signer while its trust engine had no chain
+    \* for it (refused), then the chain became available: 1 verified, 0 still refused, 2 verified without chain
+    /\ R.vlate = 0 => Bad("signer:signed-message-does-not-verify-once-chain-is-available")
+    /\ R.vlate = 2 => Bad("signer:message-verifies-without-chain")
     /\ (R.signok = 0 /\ R.exp > 0) => PrintT(<<"VERIF-DRIFT", l, "unexpired-signer-refuses">>)
     /\ R.verifyother = 1 => PrintT(<<"VERIF-DRIFT", l, "verifier-bound-to-other-ia-accepts">>)
     /\ nsig' = nsig + (IF rule = "" THEN 1 ELSE 0)
